@@ -82,6 +82,12 @@ def fragment_event(pp, tid, A, types, charges, isotopes, rules, max_losses, mono
     return ev
 
 
+def _job(args):
+    import peptacular as pp
+    warnings.simplefilter("ignore")
+    return fragment_event(pp, *args)
+
+
 def choose_call(rnd, n):
     r = rnd.random()
     if r < 0.35:
@@ -111,12 +117,13 @@ def run(tier, seed, rep):
     thorough = tier == "thorough"
     r = core.model_check("MC_Series", "MC_Series.cfg", workers=8)
     rep.add_mc("MC_Series (span counts per ion type, spans well formed)", r)
-    evs = []
-    for i in range(9000 if thorough else 600):
+    jobs = []
+    for i in range(9000 if thorough else 900):
         A = gen(rnd, 12 if i % 3 == 0 else 6)
         types, charges, isotopes, rules, ml = choose_call(rnd, len(A["seq"]))
-        evs.append(fragment_event(pp, f"f{i}", A, types, charges, isotopes, rules, ml, rnd.random() < 0.7,
-                                  rnd.choice([-1, -1, 0, 2, 4, 6, 3]), "str" if i % 2 else "ann"))
+        jobs.append((f"f{i}", A, types, charges, isotopes, rules, ml, rnd.random() < 0.7,
+                     rnd.choice([-1, -1, 0, 2, 4, 6, 3]), "str" if i % 2 else "ann"))
+    evs = core.pmap(_job, jobs)
     res = core.validate_traces("Trace_Fragment", evs, "C04", per_shard_max=300, min_per_shard=20)
     nfr = sum(len(e["frags"]) for e in evs)
     rep.add_trace("fragmentations", evs, res,
